@@ -423,6 +423,7 @@ type Budgets struct {
 	MaxYields, MaxDecs, MaxTime int64
 	GraceYields, GraceTime      int64
 	GraceDecs                   int64
+	AbortAbove                  int64 // end the run once a stage-0 probe sees an element beyond this index
 	KeepLog                     bool
 }
 
@@ -439,7 +440,7 @@ func runScript(sc *Script, sim SimCfg, b Budgets) *RunOut {
 	for i, c := range sc.Clients {
 		r.outcomes[1+i] = make([]Outcome, len(c))
 	}
-	hs := &hostState{tab: sc.Host}
+	hs := &hostState{tab: sc.Host, abortAbove: b.AbortAbove}
 	host = hs
 	races0 := simrt.RaceErrors()
 	res := simrt.Run(simConfig(sim, b), func() {
